@@ -161,6 +161,8 @@ package limiter
 
 //@ func (*BlockingLimiter).tryAcquire
 //@   maintains l
+//@   loop 1 invariant[C02] continues_only_after_refusal: (ncallsIter("core.Limiter.Acquire") >= 1 ==> !(callresIter("core.Limiter.Acquire", 0, 1) && callresIter("core.Limiter.Acquire", 0, 0) != nil)) && (ncallsIter("core.Limiter.Acquire") == 2 ==> !(callresIter("core.Limiter.Acquire", 1, 1) && callresIter("core.Limiter.Acquire", 1, 0) != nil))
+//@   ensures[C02] granted_never_dropped: !ret1 ==> (ncallsIter("core.Limiter.Acquire") >= 1 ==> !(callresIter("core.Limiter.Acquire", 0, 1) && callresIter("core.Limiter.Acquire", 0, 0) != nil)) && (ncallsIter("core.Limiter.Acquire") == 2 ==> !(callresIter("core.Limiter.Acquire", 1, 1) && callresIter("core.Limiter.Acquire", 1, 0) != nil))
 //@   loop 1 invariant[C13] blocks_with_configured_timeout: ncallsIter("limiter.blockUntilSignaled") <= 1 && (ncallsIter("limiter.blockUntilSignaled") == 1 ==> callargIter("limiter.blockUntilSignaled", 0, 0) == ctx && callargIter("limiter.blockUntilSignaled", 0, 1) == l.c && callargIter("limiter.blockUntilSignaled", 0, 2) == l.timeout)
 //@   ensures[C02] listener_iff_ok: ret1 <==> ret0 != nil
 //@   ensures[C13] cancel_checked_first: ncallsIter("context.Context.Err") == 1 && (callresIter("context.Context.Err", 0, 0) != nil ==> !ret1 && ncallsIter("core.Limiter.Acquire") == 0)
@@ -177,6 +179,8 @@ package limiter
 
 //@ func (*DeadlineLimiter).tryAcquire
 //@   maintains l
+//@   loop 1 invariant[C02] continues_only_after_refusal: (ncallsIter("core.Limiter.Acquire") >= 1 ==> !(callresIter("core.Limiter.Acquire", 0, 1) && callresIter("core.Limiter.Acquire", 0, 0) != nil)) && (ncallsIter("core.Limiter.Acquire") == 2 ==> !(callresIter("core.Limiter.Acquire", 1, 1) && callresIter("core.Limiter.Acquire", 1, 0) != nil))
+//@   ensures[C02] granted_never_dropped: !ok ==> (ncallsIter("core.Limiter.Acquire") >= 1 ==> !(callresIter("core.Limiter.Acquire", 0, 1) && callresIter("core.Limiter.Acquire", 0, 0) != nil)) && (ncallsIter("core.Limiter.Acquire") == 2 ==> !(callresIter("core.Limiter.Acquire", 1, 1) && callresIter("core.Limiter.Acquire", 1, 0) != nil))
 //@   loop 1 invariant[C13] blocks_until_deadline: ncallsIter("limiter.blockUntilSignaled") <= 1 && (ncallsIter("limiter.blockUntilSignaled") == 1 ==> callargIter("limiter.blockUntilSignaled", 0, 0) == ctx && callargIter("limiter.blockUntilSignaled", 0, 1) == l.c && callargIter("limiter.blockUntilSignaled", 0, 2) > 0 && callargIter("limiter.blockUntilSignaled", 0, 2) == l.deadline - callresIter("time.Now", 1, 0))
 //@   ensures[C02] listener_iff_ok: ok <==> listener != nil
 //@   ensures[C13] cancel_checked_first: ncallsIter("context.Context.Err") == 1 && (callresIter("context.Context.Err", 0, 0) != nil ==> !ok && ncallsIter("core.Limiter.Acquire") == 0)
@@ -297,6 +301,7 @@ package limiter
 //@   ensures[C13] timer_iff_timeout: ncalls("(*limiter.queue).push") == 1 ==> ncalls("time.NewTimer") == ite(l.maxBacklogTimeout > 0, 1, 0) && (l.maxBacklogTimeout > 0 ==> callarg("time.NewTimer", 0, 0) == l.maxBacklogTimeout)
 //@   ensures[C13] waits_on_the_right_channels: ncalls("(*limiter.queue).push") == 1 ==> ncalls("select") == 1 && callarg("select", 0, 0) == callres("(*limiter.queue).push", 0, 1) && (l.maxBacklogTimeout > 0 <==> callarg("select", 0, 1) != nil) && (l.backlogEvictDoneCtx <==> ncalls("context.Context.Done") == 1) && (l.backlogEvictDoneCtx ==> callarg("select", 0, 2) == callres("context.Context.Done", 0, 0)) && (!l.backlogEvictDoneCtx ==> callarg("select", 0, 2) == nil)
 //@   ensures[C02,C12] handed_over: ncalls("select") == 1 && callres("select", 0, 0) == 0 ==> ncalls("funcvalue:value:limiter.EvictFunc") == 0
+//@   ensures[C02,C19] handed_listener_is_returned: ncalls("select") == 1 && callres("select", 0, 0) == 0 ==> result == callres("select", 0, 1)
 //@   ensures[C12,C13] give_up_evicts: ncalls("select") == 1 && callres("select", 0, 0) != 0 ==> result == nil && ncalls("(*limiter.queue).evictionFunc$1") == 1 && callpos("select", 0) < callpos("(*limiter.queue).evictionFunc$1", 0)
 //@   owns[C17]
 
